@@ -3,16 +3,19 @@ package engine_test
 import (
 	"fmt"
 	"math"
+	"regexp"
 	"strconv"
 	"strings"
 	"sync"
 	"sync/atomic"
 	"testing"
+	"time"
 
 	"github.com/sanonone/kektordb/internal/zzverif/vexec"
 	"github.com/sanonone/kektordb/internal/zzverif/vkit"
 	"github.com/sanonone/kektordb/pkg/core/distance"
 	"github.com/sanonone/kektordb/pkg/engine"
+	"github.com/sanonone/kektordb/pkg/textanalyzer"
 	"github.com/x448/float16"
 )
 
@@ -386,26 +389,384 @@ func c06Queries(ctx *vkit.Ctx, cs *vkit.Case, x *vexec.Exec, g *vexec.Gen) {
 			}
 			// text / hybrid
 			if mi.Cfg.Lang != "" && r.Chance(0.5) {
-				tq := vkit.Pick(r, g.Words)
-				alpha := vkit.Pick(r, []float64{0, 0.3, 1})
-				tr, err := x.E.VSearchGraph(ix, query, k, filter, tq, ef, alpha, nil, false, gq)
-				if err != nil {
-					cs.Fail("hybrid VSearchGraph(%s,text=%q) failed: %v", ix, tq, err)
-				}
-				hits = hits[:0]
-				for _, rr := range tr {
-					hits = append(hits, c06Hit{id: rr.ID, score: rr.Score, has: true})
-				}
-				c06Judge(ctx, cs, x, ix, "VSearchGraph(text)", query, k, expr, scope, hits, true)
+				c06TextHybrid(ctx, cs, x, g, ix, query, k, ef, expr, gq, scope)
 				ctx.Count("queries.text", 1)
 			}
 		}
 	}
 }
 
+// ---- text-only and hybrid searches: the reported score is recomputed ---------------------------
+//
+// Reference for one search with a text part (explicit text query, or CONTAINS(field,'text') in
+// the filter), alpha, an optional boolean filter and an optional graph scope:
+//
+//	bm25(id)   raw text relevance of a live document for the analysed query terms. It is read from
+//	           the engine's own text-only search WITHOUT filter and scope, and (strict class of
+//	           C09: every document of the field has an analysed token, query terms distinct) it
+//	           must equal the from-scratch BM25 over the field values the model holds.
+//	eligible   documents with a bm25 that are live in the model, satisfy the reference filter
+//	           evaluator and lie in the reference BFS scope.
+//	text-only  (all-zero query vector)  score(id) = bm25(id), id eligible.
+//	hybrid     score(id) = alpha*1/(1+d(query, VGet(id).Vector)) + (1-alpha)*bm25(id)/max{bm25(j): j eligible}
+//	           for eligible ids; alpha*1/(1+d) for ids without a text match. The approximate
+//	           vector side may not have reached an eligible text match (completeness is C07's):
+//	           then the vector summand is absent - both values are admissible.
+//	           Memory indexes multiply by a decay in [0,1]: only the upper bound is asserted.
+//
+// The id-only API (VSearch) must list the ids in an order for which admissible scores are
+// non-increasing.
+
+var c06Word = regexp.MustCompile(`^[A-Za-z0-9_]+$`)
+
+func c06Analyzer(lang string) textanalyzer.Analyzer {
+	switch lang {
+	case "english":
+		return textanalyzer.NewEnglishStemmer()
+	case "italian":
+		return textanalyzer.NewItalianStemmer()
+	}
+	return nil
+}
+
+// c06TextFields lists the fields the text index of ix currently knows (sorted).
+func c06TextFields(x *vexec.Exec, ix string) []string {
+	x.E.DB.RLock()
+	defer x.E.DB.RUnlock()
+	m, _ := x.E.DB.GetTextIndexMap(ix)
+	return vexec.SortedKeys(m)
+}
+
+type c06Fusion struct {
+	ix, text, field, form, filter, graph string
+	alpha                                float64
+	zero, mem                            bool
+	query                                []float32
+	elig                                 map[string]float64 // eligible id -> bm25
+	maxE, maxAll                         float64
+	bestE, bestAll                       string
+	absMax                               float32
+}
+
+func (f *c06Fusion) String() string {
+	return fmt.Sprintf("index %s text=%q field=%s (%s) alpha=%v filter=%q graph=%s", f.ix, f.text, f.field, f.form, f.alpha, f.filter, f.graph)
+}
+
+// admissible returns the scores the reference admits for id (largest first) and the tolerance.
+func (f *c06Fusion) admissible(cs *vkit.Case, x *vexec.Exec, api, id string) (vals []float64, tol float64, how string) {
+	bm, isElig := f.elig[id]
+	if f.zero {
+		if !isElig {
+			cs.Fail("text-only %s %s returned %s, which the engine's own unfiltered text search for the same text does not list (no analysed query term in its %s)", api, f, id, f.field)
+		}
+		return []float64{bm}, 1e-9 * bm, fmt.Sprintf("bm25 %.12g", bm)
+	}
+	d, err := x.E.VGet(f.ix, id)
+	if err != nil {
+		cs.Fail("%s returned %s but VGet fails: %v", api, id, err)
+	}
+	mi := x.M.Idx[f.ix]
+	if f.absMax == 0 && mi.Cfg.Prec == distance.Int8 {
+		f.absMax = c06AbsMax(x, f.ix)
+	}
+	sim, tolP := c06Similarity(mi.Cfg, d.Vector, f.query, f.absMax)
+	t := 0.0
+	if isElig && f.maxE > 0 {
+		t = bm / f.maxE
+	}
+	vals = []float64{f.alpha*sim + (1-f.alpha)*t}
+	how = fmt.Sprintf("alpha*1/(1+d) + (1-alpha)*bm25/best_eligible_bm25 = %v*%.9g + %v*%.9g/%.9g = %.9g", f.alpha, sim, 1-f.alpha, bm, f.maxE, vals[0])
+	if t > 0 {
+		vals = append(vals, (1-f.alpha)*t)
+		how += fmt.Sprintf(" (or %.9g when the vector side did not reach it)", vals[1])
+	}
+	return vals, f.alpha*tolP + 1e-9, how
+}
+
+func (f *c06Fusion) context() string {
+	s := fmt.Sprintf("best eligible text match %s (bm25 %.9g)", f.bestE, f.maxE)
+	if f.maxAll > f.maxE {
+		s += fmt.Sprintf("; the best text match of the whole index, %s (bm25 %.9g), is excluded by the filter / graph scope", f.bestAll, f.maxAll)
+	}
+	return s
+}
+
+func c06TextHybrid(ctx *vkit.Ctx, cs *vkit.Case, x *vexec.Exec, g *vexec.Gen, ix string, query []float32, k, ef int, expr *c08Expr, gq *engine.GraphQuery, scope map[string]bool) {
+	r := cs.R
+	mi := x.M.Idx[ix]
+	an := c06Analyzer(mi.Cfg.Lang)
+	if an == nil {
+		return
+	}
+	n := len(mi.Recs)
+	alpha := vkit.Pick(r, []float64{0, 0.3, 1, 0.5, 0.7})
+	if r.Chance(0.25) {
+		alpha = float64(r.Intn(1001)) / 1000
+	}
+	if r.Chance(0.25) {
+		query = make([]float32, mi.Dim)
+	}
+	f := &c06Fusion{ix: ix, alpha: alpha, query: query, zero: true, graph: vkit.JSON(gq), elig: map[string]float64{},
+		mem: mi.Cfg.Mem != nil && mi.Cfg.Mem.Enabled}
+	for _, v := range query {
+		if v != 0 {
+			f.zero = false
+		}
+	}
+	// which field: an explicit text query auto-detects it ("content" if the text index knows it,
+	// else any indexed field - determinate only when there is exactly one); CONTAINS names it.
+	fields := c06TextFields(x, ix)
+	auto := ""
+	var named []string
+	for _, fn := range fields {
+		if fn == "content" {
+			auto = fn
+		}
+		if c06Word.MatchString(fn) && !strings.HasPrefix(fn, "_") && fn != "memory_layer" {
+			named = append(named, fn)
+		}
+	}
+	if auto == "" && len(fields) == 1 && len(named) == 1 {
+		auto = fields[0]
+	}
+	named = append(named, "content")
+	viaContains := auto == "" || r.Chance(0.4)
+	if viaContains && expr != nil && len(expr.Blocks) != 1 {
+		// CONTAINS is combined with pure AND filters only (how it binds next to OR is not part
+		// of the documented grammar)
+		if auto != "" {
+			viaContains = false
+		} else {
+			expr = nil
+		}
+	}
+	boolFilter := ""
+	if expr != nil {
+		boolFilter = expr.Text
+	}
+	f.field, f.form, f.filter = auto, "explicit text query", boolFilter
+	if viaContains {
+		f.field, f.form = vkit.Pick(r, named), "CONTAINS"
+	}
+	// the text: 1-3 words, mostly words that occur in the field of live documents
+	var present []string
+	for _, id := range vexec.SortedKeys(mi.Recs) {
+		if s, ok := mi.Recs[id].Meta[f.field].(string); ok && !strings.ContainsAny(s, "'\"") {
+			present = append(present, strings.Fields(s)...)
+		}
+	}
+	words := make([]string, r.Range(1, 3))
+	for i := range words {
+		if len(present) > 0 && r.Chance(0.7) {
+			words[i] = vkit.Pick(r, present)
+		} else {
+			words[i] = vkit.Pick(r, g.Words)
+		}
+	}
+	tq := strings.Join(words, " ")
+	qt := an.Analyze(tq)
+	f.text = tq
+	explicit, rawFilter := tq, ""
+	if viaContains {
+		rawFilter, explicit = fmt.Sprintf("CONTAINS(%s, '%s')", f.field, tq), ""
+		switch {
+		case boolFilter == "":
+			f.filter = rawFilter
+		case r.Chance(0.5):
+			f.filter = boolFilter + " AND " + rawFilter
+		default:
+			f.filter = rawFilter + " AND " + boolFilter
+		}
+	}
+	cs.Op("text/hybrid %s q=%v k=%d ef=%d analysed=%v", f, query, k, ef, qt)
+
+	// (1) raw relevance: the engine's text-only search without filter and scope
+	rawRes, err := x.E.VSearchGraph(ix, make([]float32, mi.Dim), 10*n+50, rawFilter, explicit, 0, alpha, nil, false, nil)
+	if err != nil {
+		cs.Fail("text-only VSearchGraph %s failed: %v", f, err)
+	}
+	hits := make([]c06Hit, 0, len(rawRes))
+	raw := map[string]float64{}
+	for _, rr := range rawRes {
+		hits = append(hits, c06Hit{id: rr.ID, score: rr.Score, has: true})
+		raw[rr.ID] = rr.Score
+	}
+	c06Judge(ctx, cs, x, ix, "VSearchGraph(text-only, unfiltered)", nil, 10*n+50, nil, nil, hits, true)
+	// ... which must be the BM25 of the stored field values (strict class only)
+	live := map[string]map[string]any{}
+	for id, rec := range mi.Recs {
+		live[id] = vexec.NormMeta(rec.Meta)
+	}
+	corpus := c09BuildCorpus(an, f.field, live)
+	if corpus.strict && c09Distinct(qt) {
+		ref := corpus.score(qt)
+		for _, id := range vexec.SortedKeys(raw) {
+			w, ok := ref[id]
+			if !ok {
+				cs.Fail("text-only search %s returned %s (score %v) whose stored %s=%v contains no analysed query term %v", f, id, raw[id], f.field, live[id][f.field], qt)
+			}
+			if !c09RelClose(raw[id], w, 1e-9) {
+				cs.Fail("text-only search %s: score %.15g of %s, BM25 recomputed from the stored %s values = %.15g (N=%v avgdl=%.6g)", f, raw[id], id, f.field, w, corpus.n, corpus.avg)
+			}
+			ctx.Count("text.bm25_recomputed", 1)
+		}
+	} else {
+		ctx.Count("text.lenient_corpus_or_query", 1)
+	}
+	// (2) eligibility by the reference filter evaluator and the reference scope
+	for _, id := range vexec.SortedKeys(raw) {
+		rec := mi.Recs[id]
+		if rec == nil || !(raw[id] > 0) {
+			continue
+		}
+		if raw[id] > f.maxAll {
+			f.maxAll, f.bestAll = raw[id], id
+		}
+		if (expr != nil && !expr.Match(rec.Meta)) || (scope != nil && !scope[id]) {
+			continue
+		}
+		f.elig[id] = raw[id]
+		if raw[id] > f.maxE {
+			f.maxE, f.bestE = raw[id], id
+		}
+	}
+	// (3) the search itself, with scores and id-only
+	res, err := x.E.VSearchGraph(ix, query, k, f.filter, explicit, ef, alpha, nil, false, gq)
+	if err != nil {
+		cs.Fail("VSearchGraph %s failed: %v", f, err)
+	}
+	hits = hits[:0]
+	for _, rr := range res {
+		hits = append(hits, c06Hit{id: rr.ID, score: rr.Score, has: true})
+	}
+	c06Judge(ctx, cs, x, ix, "VSearchGraph(text)", query, k, expr, scope, hits, true)
+	for _, h := range hits {
+		vals, tol, how := f.admissible(cs, x, "VSearchGraph", h.id)
+		if f.mem && !f.zero {
+			if h.score > vals[0]+tol || h.score < -1e-12 {
+				cs.Fail("VSearchGraph %s (memory index): score %.9g of %s exceeds its undecayed value %s; %s", f, h.score, h.id, how, f.context())
+			}
+			continue
+		}
+		ok := false
+		for _, v := range vals {
+			if math.Abs(h.score-v) <= tol {
+				ok = true
+			}
+		}
+		if !ok {
+			cs.Fail("VSearchGraph %s: score %.9g of %s, recomputed %s (tolerance %.3g); %s", f, h.score, h.id, how, tol, f.context())
+		}
+		ctx.Count("text.fused_scores_recomputed", 1)
+	}
+	ids, err := x.E.VSearch(ix, query, k, f.filter, explicit, ef, alpha, gq)
+	if err != nil {
+		cs.Fail("VSearch %s failed: %v", f, err)
+	}
+	hits = hits[:0]
+	for _, id := range ids {
+		hits = append(hits, c06Hit{id: id})
+	}
+	c06Judge(ctx, cs, x, ix, "VSearch(text)", query, k, expr, scope, hits, true)
+	if !f.mem || f.zero {
+		prev, prevID := math.Inf(1), ""
+		for i, id := range ids {
+			vals, tol, how := f.admissible(cs, x, "VSearch", id)
+			pick := math.Inf(-1)
+			for _, v := range vals { // largest admissible score that keeps the order
+				if v <= prev+2*tol && v > pick {
+					pick = v
+				}
+			}
+			if math.IsInf(pick, -1) {
+				cs.Fail("VSearch %s: id %s at position %d (recomputed %s) is listed after %s whose largest admissible score is %.9g: not in non-increasing score order; %s", f, id, i, how, prevID, prev, f.context())
+			}
+			prev, prevID = pick, id
+			ctx.Count("text.order_positions_checked", 1)
+		}
+	}
+	// evidence: which situations were seen
+	kind := "hybrid"
+	if f.zero {
+		kind = "textonly"
+	}
+	ctx.Count("text."+kind+".queries", 1)
+	if viaContains {
+		ctx.Count("text."+kind+".via_contains", 1)
+	}
+	if expr != nil || scope != nil {
+		ctx.Count("text."+kind+".filtered_or_scoped", 1)
+	}
+	if len(f.elig) >= 2 {
+		ctx.Count("text."+kind+".two_or_more_eligible_matches", 1)
+	}
+	if f.maxE > 0 && f.maxAll > f.maxE {
+		ctx.Count("text."+kind+".best_match_of_index_not_eligible", 1)
+		if len(res) > 0 {
+			ctx.Count("text."+kind+".best_match_of_index_not_eligible.with_results", 1)
+		}
+	}
+}
+
+// c06TextStep is an extra history step for indexes with a text language: a record (new id, or a
+// re-add over a live / deleted one) that carries a "content" text next to the usual metadata, or
+// a metadata update that replaces the text of a live record. It goes through the executor, so
+// the model follows.
+func c06TextStep(cs *vkit.Case, x *vexec.Exec, g *vexec.Gen) {
+	r := cs.R
+	var tix []string
+	for _, ix := range vexec.SortedKeys(x.M.Idx) {
+		if x.M.Idx[ix].Cfg.Lang != "" {
+			tix = append(tix, ix)
+		}
+	}
+	if len(tix) == 0 {
+		g.Step(x)
+		return
+	}
+	ix := vkit.Pick(r, tix)
+	mi := x.M.Idx[ix]
+	if len(mi.Recs) > 0 && r.Chance(0.3) {
+		x.VSetMetadata(ix, vkit.Pick(r, vexec.SortedKeys(mi.Recs)), map[string]any{"content": g.Text()})
+		return
+	}
+	m := g.Meta()
+	if m == nil {
+		m = map[string]any{}
+	}
+	m["content"] = g.Text()
+	id := vkit.Pick(r, g.IDs)
+	if r.Chance(0.5) {
+		id = fmt.Sprintf("b%d", r.Intn(40))
+	}
+	x.VAdd(ix, id, g.AddVec(x.M, ix), m)
+}
+
 // C06 — search returns only live, matching, correctly scored results.
 func TestVerifC06(t *testing.T) {
 	vkit.Run(t, "C06", func(ctx *vkit.Ctx) {
+		// D-C06-1: the field auto-detection of an explicit text query reads the index's
+		// text-field map without the index lock under which writers add and drop its entries.
+		ctx.Probe("D-C06-1", func(cs *vkit.Case) string {
+			e, err := engine.Open(vexec.Options(cs.SubDir("data")))
+			if err != nil {
+				return ""
+			}
+			defer e.Close()
+			e.VCreate("ix", distance.Euclidean, 4, 16, distance.Float32, "english", nil, nil, nil)
+			e.VAdd("ix", "a", []float32{1, 0, 0, 0}, map[string]any{"content": "alpha beta"})
+			cs.Op("hold the write lock of index ix (as DB.AddMetadata does while it adds a text field); run the text-field auto-detection of an explicit text query")
+			// the timeout only bounds the wait for a detection that (correctly) blocks on the lock
+			ran, problem := engine.VerifC06DetectUnderIndexLock(e, "ix", 3*time.Second)
+			if problem != "" {
+				ctx.Count("probe_D-C06-1_not_applicable", 1)
+				return ""
+			}
+			if ran {
+				return "Engine.detectTextFieldForIndex ranged over the text-field map of ix while another goroutine held the write lock of ix: a concurrent VAdd / VSetMetadata / VDelete that creates or drops a text field races it (Go race detector: ops.go:2158 vs core.go:1739; at run time 'fatal error: concurrent map iteration and map write')"
+			}
+			return ""
+		})
 		ctx.Group("states", ctx.N(1200, 20000), func(cs *vkit.Case) {
 			x := vexec.NewExec(cs, cs.SubDir("data"))
 			defer func() {
@@ -416,7 +777,9 @@ func TestVerifC06(t *testing.T) {
 			g := vexec.NewGen(cs.R)
 			nops := cs.R.Range(20, ctx.N(45, 70))
 			for i := 0; i < nops; i++ {
-				if cs.R.Chance(0.12) {
+				if cs.R.Chance(0.15) {
+					c06TextStep(cs, x, g)
+				} else if cs.R.Chance(0.12) {
 					g.Admin(x)
 				} else {
 					g.Step(x)
@@ -460,17 +823,38 @@ func TestVerifC06Concurrent(t *testing.T) {
 			e.VCreate("other", distance.Euclidean, 4, 16, distance.Float32, "", nil, nil, nil)
 			r := cs.R
 			rv := func() []float32 { return []float32{r.F32(), r.F32(), r.F32(), r.F32()} }
+			// texts: A documents keep theirs for the whole case; every D document (and no A
+			// document) contains "zulu"; X documents draw from all words
+			cw := []string{"alpha", "beta", "gamma", "delta", "red", "green"}
+			txt := func(rr *vkit.Rand, pool []string) string {
+				w := make([]string, rr.Range(1, 4))
+				for i := range w {
+					w[i] = vkit.Pick(rr, pool)
+				}
+				return strings.Join(w, " ")
+			}
+			cwz := append(append([]string{}, cw...), "zulu")
+			an := textanalyzer.NewEnglishStemmer()
 			for i := 0; i < 24; i++ {
 				cat := vkit.Pick(r, []string{"x", "y"})
-				e.VAdd("ix", fmt.Sprintf("A%d", i), rv(), map[string]any{"cat": cat, "cls": "A", "n": float64(i)})
-				e.VAdd("ix", fmt.Sprintf("D%d", i), rv(), map[string]any{"cat": cat, "cls": "D"})
-				e.VAdd("other", fmt.Sprintf("O%d", i), rv(), map[string]any{"cat": cat, "cls": "O"})
+				e.VAdd("ix", fmt.Sprintf("A%d", i), rv(), map[string]any{"cat": cat, "cls": "A", "n": float64(i), "content": txt(r, cw)})
+				e.VAdd("ix", fmt.Sprintf("D%d", i), rv(), map[string]any{"cat": cat, "cls": "D", "content": "zulu " + txt(r, cw)})
+				e.VAdd("other", fmt.Sprintf("O%d", i), rv(), map[string]any{"cat": cat, "cls": "O", "content": txt(r, cwz)})
 			}
 			catA := map[string]string{}
+			vecA := map[string][]float32{}
+			tokA := map[string]map[string]bool{}
 			for i := 0; i < 24; i++ {
 				d, _ := e.VGet("ix", fmt.Sprintf("A%d", i))
 				catA[d.ID], _ = d.Metadata["cat"].(string)
+				vecA[d.ID] = vexec.CopyVec(d.Vector)
+				tokA[d.ID] = map[string]bool{}
+				c, _ := d.Metadata["content"].(string)
+				for _, tk := range an.Analyze(c) {
+					tokA[d.ID][tk] = true
+				}
 			}
+			cfgA := vexec.IndexCfg{Metric: distance.DistanceMetric(cb[0]), Prec: distance.PrecisionType(cb[1])}
 			for i := 0; i < 24; i++ {
 				e.VDelete("ix", fmt.Sprintf("D%d", i))
 			}
@@ -488,11 +872,15 @@ func TestVerifC06Concurrent(t *testing.T) {
 						id := fmt.Sprintf("X%d_%d", w, rw.Intn(12))
 						switch rw.Intn(6) {
 						case 0, 1:
-							e.VAdd("ix", id, []float32{rw.F32(), rw.F32(), rw.F32(), rw.F32()}, map[string]any{"cat": vkit.Pick(rw, []string{"x", "y"}), "cls": "X"})
+							e.VAdd("ix", id, []float32{rw.F32(), rw.F32(), rw.F32(), rw.F32()}, map[string]any{"cat": vkit.Pick(rw, []string{"x", "y"}), "cls": "X", "content": txt(rw, cwz)})
 						case 2:
 							e.VDelete("ix", id)
 						case 3:
-							e.VSetMetadata("ix", id, map[string]any{"cat": vkit.Pick(rw, []string{"x", "y"})})
+							if rw.Chance(0.5) {
+								e.VSetMetadata("ix", id, map[string]any{"content": txt(rw, cwz)})
+							} else {
+								e.VSetMetadata("ix", id, map[string]any{"cat": vkit.Pick(rw, []string{"x", "y"})})
+							}
 						case 4:
 							if w == 0 {
 								e.VTriggerMaintenance("ix", vkit.Pick(rw, []string{"vacuum", "refine"}))
@@ -504,8 +892,9 @@ func TestVerifC06Concurrent(t *testing.T) {
 					}
 				}(w, rw)
 			}
-			nq := ctx.N(600, 3000)
-			var judged atomic.Int64
+			nq := ctx.N(600, 1500)
+			explicitOK := !ctx.IsKnown("D-C06-1")
+			var judged, scoredA, textQueries atomic.Int64
 			var qwg sync.WaitGroup
 			for qw := 0; qw < 4; qw++ {
 				qwg.Add(1)
@@ -520,29 +909,111 @@ func TestVerifC06Concurrent(t *testing.T) {
 						if rq.Chance(0.6) {
 							filter = "cat = '" + cat + "'"
 						}
-						ids, err := e.VSearch("ix", q, k, filter, "", vkit.Pick(rq, []int{0, 10, 100}), 1.0, nil)
+						catFilter := filter != ""
+						// read-out: ids only (vector), scores (vector), scores with a text part
+						// (hybrid, or text-only with an all-zero query vector)
+						mode, text, ctext, alpha, zeroQ := rq.Intn(4), "", "", 1.0, false
+						ef := vkit.Pick(rq, []int{0, 10, 100})
+						if mode == 3 {
+							text = txt(rq, cwz)
+							if len(text) > 12 {
+								text = strings.Fields(text)[0]
+							}
+							// D-C06-1 (while known): no explicit text query next to writers - its
+							// field auto-detection races them; CONTAINS names the field
+							if !explicitOK || rq.Chance(0.5) {
+								cl := "CONTAINS(content, '" + text + "')"
+								if filter == "" {
+									filter = cl
+								} else {
+									filter += " AND " + cl
+								}
+								ctext = ""
+							} else {
+								ctext = text
+							}
+							alpha = vkit.Pick(rq, []float64{0, 0.5, 1, float64(rq.Intn(1001)) / 1000})
+							if rq.Chance(0.3) {
+								q, zeroQ = []float32{0, 0, 0, 0}, true
+							}
+						}
+						var ids []string
+						var scores []float64
+						var err error
+						api := "VSearch"
+						if mode < 2 {
+							ids, err = e.VSearch("ix", q, k, filter, "", ef, 1.0, nil)
+						} else {
+							api = fmt.Sprintf("VSearchGraph(q=%v, text=%q, alpha=%v, filter=%q)", q, text, alpha, filter)
+							var res []engine.GraphSearchResult
+							res, err = e.VSearchGraph("ix", q, k, filter, ctext, ef, alpha, nil, false, nil)
+							for _, rr := range res {
+								ids = append(ids, rr.ID)
+								scores = append(scores, rr.Score)
+							}
+						}
 						if err != nil {
-							fail.CompareAndSwap(nil, fmt.Sprintf("VSearch failed: %v", err))
+							fail.CompareAndSwap(nil, fmt.Sprintf("%s failed: %v", api, err))
 							return
+						}
+						qtok := an.Analyze(text)
+						for i, id := range ids {
+							if scores == nil {
+								break
+							}
+							sc := scores[i]
+							if math.IsNaN(sc) || (i > 0 && sc > scores[i-1]+1e-12) {
+								fail.CompareAndSwap(nil, fmt.Sprintf("%s: scores not in non-increasing order at position %d: %v", api, i, scores))
+							}
+							if !strings.HasPrefix(id, "A") || cfgA.Prec == distance.Int8 {
+								continue
+							}
+							// class A: vector and text never change, so the score is recomputable
+							match := false
+							for _, tk := range qtok {
+								if tokA[id][tk] {
+									match = true
+								}
+							}
+							if zeroQ {
+								if !match || !(sc > 0) {
+									fail.CompareAndSwap(nil, fmt.Sprintf("%s (text-only) returned %s with score %v; its (immutable) content has analysed terms %v, the query %v", api, id, sc, vexec.SortedKeys(tokA[id]), qtok))
+								}
+								scoredA.Add(1)
+								continue
+							}
+							sim, tolP := c06Similarity(cfgA, vecA[id], q, 0)
+							switch {
+							case mode == 2 && math.Abs(sc-sim) > tolP:
+								fail.CompareAndSwap(nil, fmt.Sprintf("%s: score %v of %s, recomputed 1/(1+d) from its (immutable) vector = %v (tolerance %v)", api, sc, id, sim, tolP))
+							case mode == 3 && !match && math.Abs(sc-alpha*sim) > alpha*tolP+1e-9:
+								fail.CompareAndSwap(nil, fmt.Sprintf("%s: score %v of %s, whose (immutable) content %v has no query term %v: expected alpha*1/(1+d) = %v*%v", api, sc, id, vexec.SortedKeys(tokA[id]), qtok, alpha, sim))
+							case mode == 3 && (sc > alpha*sim+(1-alpha)+alpha*tolP+1e-9 || sc < -1e-12):
+								fail.CompareAndSwap(nil, fmt.Sprintf("%s: score %v of %s outside [0, alpha*1/(1+d) + (1-alpha)] = [0, %v*%v + %v]", api, sc, id, alpha, sim, 1-alpha))
+							}
+							scoredA.Add(1)
 						}
 						seen := map[string]bool{}
 						for _, id := range ids {
 							switch {
 							case seen[id]:
-								fail.CompareAndSwap(nil, fmt.Sprintf("VSearch returned %s twice: %v", id, ids))
+								fail.CompareAndSwap(nil, fmt.Sprintf("%s returned %s twice: %v", api, id, ids))
 							case strings.HasPrefix(id, "D"):
-								fail.CompareAndSwap(nil, fmt.Sprintf("VSearch returned %s, which was deleted and vacuumed before the queries started", id))
+								fail.CompareAndSwap(nil, fmt.Sprintf("%s returned %s, which was deleted and vacuumed before the queries started", api, id))
 							case strings.HasPrefix(id, "O"):
-								fail.CompareAndSwap(nil, fmt.Sprintf("VSearch on ix returned %s, a vector of another index", id))
-							case strings.HasPrefix(id, "A") && filter != "" && catA[id] != cat:
-								fail.CompareAndSwap(nil, fmt.Sprintf("VSearch with %q returned %s whose (immutable) cat is %q", filter, id, catA[id]))
+								fail.CompareAndSwap(nil, fmt.Sprintf("%s on ix returned %s, a vector of another index", api, id))
+							case strings.HasPrefix(id, "A") && catFilter && catA[id] != cat:
+								fail.CompareAndSwap(nil, fmt.Sprintf("%s with %q returned %s whose (immutable) cat is %q", api, filter, id, catA[id]))
 							case !strings.HasPrefix(id, "A") && !strings.HasPrefix(id, "X"):
-								fail.CompareAndSwap(nil, fmt.Sprintf("VSearch returned unknown id %q", id))
+								fail.CompareAndSwap(nil, fmt.Sprintf("%s returned unknown id %q", api, id))
 							}
 							seen[id] = true
 						}
+						if mode == 3 {
+							textQueries.Add(1)
+						}
 						if len(ids) > k {
-							fail.CompareAndSwap(nil, fmt.Sprintf("VSearch returned %d results for k=%d", len(ids), k))
+							fail.CompareAndSwap(nil, fmt.Sprintf("%s returned %d results for k=%d", api, len(ids), k))
 						}
 						judged.Add(int64(len(ids)))
 						ctx.Touch()
@@ -557,6 +1028,8 @@ func TestVerifC06Concurrent(t *testing.T) {
 			}
 			ctx.Count("concurrent_results_judged", judged.Load())
 			ctx.Count("concurrent_queries", int64(nq))
+			ctx.Count("concurrent_text_or_hybrid_queries", textQueries.Load())
+			ctx.Count("concurrent_classA_scores_recomputed", scoredA.Load())
 			ctx.Eval(1)
 			ctx.Distinct(fmt.Sprintf("conc/%s/%s/%d", cb[0], cb[1], judged.Load()/2000))
 		})
